@@ -43,6 +43,9 @@ Universe == {
   Ev("k6", "a", 5, 1, <<Tg3("e", "r2")>>),                      \* reference with a relay hint
   Ev("k8", "a", 5, 1, <<Tg("e", "r1")>>),                       \* a second, older request for the same target
   Ev("k9", "b", 5, 4, <<Tg("e", "p2"), Tg("e", "x2")>>),        \* foreign replaceable / addressable by id
+  Ev("k10", "a", 5, 2, <<Tg("e", "g1")>>),                     \* names an ephemeral event of its author
+  Ev("k11", "b", 5, 5, <<Tg("e", "k1")>>),                     \* foreign request naming a deletion request
+  Ev("y6", "a", 30002, 4, <<Tg1("d"), Tg("d", "x")>>),          \* value-less d tag first: the address is still d = ""
   \* a repeated tag followed by another one (index maintenance)
   Ev("r5", "b", 1, 3, <<Tg("t", "z"), Tg("t", "z"), Tg("p", "c")>>)
 }
